@@ -1,12 +1,21 @@
 #!/usr/bin/env python3
-"""usage: tools/seedtable.py <matrix.txt> : markdown table of the seeded changes (seeded/*/meta.json) with the checks that reported each"""
-import json, os, sys
+"""usage: tools/seedtable.py <full matrix.txt> [<own-property matrix.txt>] [<later single results.txt>] :
+markdown table of the seeded changes (seeded/*/meta.json) with the checks that reported each.
+Full matrix lines "seed: C01 C06(nfi) ..." (all 20 quick checks were run); own-property lines "seed: C04 (ran: C05 C04 C13)" (only the listed checks were
+run); a later file overrides an earlier one for the checks it ran."""
+import json, os, re, sys
 V = os.path.dirname(os.path.dirname(os.path.abspath(__file__)))
-rows = {}
-for l in open(sys.argv[1]):
-    if ':' in l:
-        k, v = l.split(':', 1)
-        rows[k.strip()] = v.split()
+full, own = {}, {}
+for fn in sys.argv[1:]:
+    for l in open(fn):
+        m = re.match(r'(\S+):\s*(.*?)\s*(\(ran: ([^)]*)\))?\s*$', l)
+        if not m or m.group(1) == 'done':
+            continue
+        seed, hits, _, ran = m.groups()
+        if ran is None:
+            full[seed] = hits.split()
+        else:
+            own[seed] = (hits.split(), ran.split())
 print('| seed | property | what the change does (first sentence of the author\'s summary) | quick checks that report it |')
 print('|---|---|---|---|')
 for s in sorted(os.listdir(os.path.join(V, 'seeded'))):
@@ -15,5 +24,11 @@ for s in sorted(os.listdir(os.path.join(V, 'seeded'))):
         continue
     m = json.load(open(mp))
     summ = ' '.join(m.get('summary', '').split())
-    first = summ.split('. ')[0][:230]
-    print('| %s | %s | %s | %s |' % (s, m.get('property', s[:3]), first.replace('|', '/'), ' '.join(rows.get(s, ['(not in this matrix run)']))))
+    first = summ.split('. ')[0][:200]
+    if s in full:
+        cell = ' '.join(full[s]) or '(none)'
+    elif s in own:
+        cell = (' '.join(own[s][0]) or '(none)') + ' — of ' + ' '.join(own[s][1])
+    else:
+        cell = '(processed individually: see the round narrative)'
+    print('| %s | %s | %s | %s |' % (s, m.get('property', s[:3]), first.replace('|', '/'), cell))
